@@ -42,12 +42,48 @@ def lexer_conformance(ctx):
     ctx.cov["evaluations"] += ntexts
 
 
+def parser_conformance(ctx):
+    """The real grammar-file parser's syntax tree vs the token-level model FileParse.tla."""
+    import conf
+    out = ctx.sub("parse")
+    r = ctx.vh(["parseobs", "-out", out, "-seed", ctx.seed, "-shards", 16, "-ntexts", ctx.pick(3000, 40000), "-nfile", ctx.pick(1200, 12000),
+                "-klen", ctx.pick(2, 3), "-corpus", conf.CORPUS, "-nrand", ctx.pick(40, 300), "-nexpr", ctx.pick(10, 60)])
+    log(r.stdout.strip().splitlines()[-1])
+    shards = sorted(glob.glob(os.path.join(out, "parse-*.json")))
+    results = run_tlc_shards(ctx, "ConfParse.tla", "ConfParse.cfg", shards, timeout=ctx.pick(600, 3000), extra=["-continue"])
+    require_clean(results)
+    add_tlc_cov(ctx, results, "real parser syntax trees vs the token-level model (FileParse.tla / ConfParse.tla)")
+    n = trees = 0
+    seen = 0
+    for sf, res in results:
+        obs = json.load(open(sf))
+        n += len(obs)
+        trees += sum(1 for o in obs if o["ast"]["ok"])
+        for name, vars_, txt in res.violations:
+            if seen >= 5:
+                break
+            seen += 1
+            o = obs[int(vars_["m"]) - 1]
+            key = "parser:%r" % o["text"]
+            d = ctx.replay_dir(key)
+            open(os.path.join(d, "input.y"), "w").write(o["text"])
+            json.dump({"property": "C10", "kind": "parser", "obs": o}, open(os.path.join(d, "meta.json"), "w"), indent=1)
+            ctx.violation(key, d, "the syntax tree built for %r differs from the model FileParse.tla: real %s" % (
+                o["text"][:300], json.dumps(o["ast"])[:600]))
+    ctx.cov["parser_texts"] = n
+    ctx.cov["parser_trees"] = trees
+    ctx.cov["evaluations"] += n
+    if trees < ctx.pick(800, 8000):
+        raise Inconclusive("too few texts that parse: %d" % trees)
+
+
 def run(ctx, replay):
     if replay:
         meta = json.load(open(os.path.join(replay, "meta.json")))
         raise Inconclusive("replay: `harness filerender -seed %s -n %s -spec %s -layout %s` reproduces the text" % (
             meta["seed"], meta["n"], meta["spec"], ",".join(map(str, meta["layout"]))))
     lexer_conformance(ctx)
+    parser_conformance(ctx)
     out = ctx.sub("file")
     n = ctx.pick(16, 120)
     r = ctx.vh(["fileobs", "-phase", "specs", "-n", n, "-out", out, "-seed", ctx.seed])
